@@ -4,9 +4,10 @@ CONSTANTS
  Urls <- MCUrls
  UserNames <- MCUserNames
  Paths <- MCPaths
+ Passwords <- MCPasswords
+ Spellings <- MCSpellings
  PageSizes <- MCPageSizes
  MaxHist = 2
  EmitAt = 2
-INVARIANTS Emit PagingComplete
-PROPERTIES RefusedChangesNothing
+INVARIANTS RefusedChangedNothing
 CHECK_DEADLOCK FALSE
